@@ -2,6 +2,7 @@ package rules
 
 import (
 	"fmt"
+	"sync"
 	"go/types"
 	"sort"
 	"strings"
@@ -313,40 +314,34 @@ func c12W3(r *Run, rep *core.Report) {
 }
 
 func wrapperSummary(mm *core.MapModel, w *ssa.Function) string {
-	out := "no call of the core"
-	core.Instrs(w, func(in ssa.Instruction) {
-		c, ok := in.(ssa.CallInstruction)
-		if !ok || core.Callee(c) != mm.Core {
-			return
+	c, _ := coreCallOf(mm, w, 0)
+	if c == nil {
+		return "no call of the core"
+	}
+	var parts []string
+	for i, a := range c.Common().Args {
+		if i >= len(mm.Core.Params) {
+			continue
 		}
-		var parts []string
-		for i, a := range c.Common().Args {
-			if i >= len(mm.Core.Params) {
-				continue
-			}
-			if b, isC := core.ConstBool(a); isC {
-				parts = append(parts, fmt.Sprint(b))
-			}
-			if isFuncTyped(mm.Core.Params[i].Type()) {
-				switch x := core.StripConv(a).(type) {
-				case *ssa.Parameter:
-					parts = append(parts, "user-fn")
-				case *ssa.MakeClosure:
-					parts = append(parts, "adapter("+adapterSummary(x.Fn.(*ssa.Function))+")")
-				case *ssa.Function:
-					parts = append(parts, "adapter("+adapterSummary(x)+")")
-				}
+		if b, isC := core.ConstBool(a); isC {
+			parts = append(parts, fmt.Sprint(b))
+		}
+		if isFuncTyped(mm.Core.Params[i].Type()) {
+			if _, isP := core.StripConv(a).(*ssa.Parameter); isP {
+				parts = append(parts, "user-fn")
+			} else if cl, _ := funcOfValue(a, 0); cl != nil {
+				parts = append(parts, "adapter("+adapterSummary(cl)+")")
 			}
 		}
-		// what the wrapper returns
-		rets := "returns-core-result"
-		if w.Signature.Results().Len() == 0 {
-			rets = "no-result"
-		}
-		out = strings.Join(parts, ",") + " " + rets
-	})
-	return out
+	}
+	rets := "returns-core-result"
+	if w.Signature.Results().Len() == 0 {
+		rets = "no-result"
+	}
+	return strings.Join(parts, ",") + " " + rets
 }
+
+var c15mu sync.Mutex
 
 func c12W4(r *Run, rep *core.Report) {
 	scope := r.P.Cache.Pkg.Scope()
@@ -361,72 +356,247 @@ func c12W4(r *Run, rep *core.Report) {
 		ia := newInterp(r, false)
 		ib := newInterp(r, false)
 		pa, pb := ia.Run(fa), ib.Run(fb)
-		tab := func(ps []sym.Path) map[string][]string {
-			out := map[string]map[string]bool{}
-			for i := range ps {
-				p := &ps[i]
-				var cls []string
-				for _, a := range p.PC {
-					cls = append(cls, fmt.Sprintf("%s=%v", stripOrd(normTerm(a.T)), a.V))
-				}
-				var rs []string
-				for _, t := range p.Ret {
-					rs = append(rs, stripOrd(normTerm(t)))
-				}
-				c := strings.Join(cls, " ")
-				if out[c] == nil {
-					out[c] = map[string]bool{}
-				}
-				out[c][strings.Join(rs, ",")] = true
-			}
-			res := map[string][]string{}
-			for c, s := range out {
-				res[c] = keysB(s)
-			}
-			return res
-		}
-		diff := tableDiff(tab(pa), tab(pb))
 		prob := ""
-		for _, p := range append(pa, pb...) {
+		for _, p := range append(append([]sym.Path{}, pa...), pb...) {
 			if len(p.Problems) > 0 {
 				prob = p.Problems[0]
 			}
 		}
-		if prob != "" {
-			rep.Undecided("C12.W4", pr[0]+" == "+pr[1], r.P.Pos(fa.Pos()), prob)
+		if prob != "" || len(pa) == 0 || len(pb) == 0 {
+			rep.Undecided("C12.W4", pr[0]+" == "+pr[1], r.P.Pos(fa.Pos()), "cannot evaluate the config helpers: "+prob)
 			continue
 		}
-		rep.Check(diff == "" && len(pa) > 0, "C12.W4", pr[0]+" == "+pr[1], r.P.Pos(fa.Pos()), fmt.Sprintf("equal normalisation tables (%d partitions)", len(pa)), "config helpers differ: "+diff)
+		// finite-ordering comparison: both functions only compare config fields and len(args) with constants;
+		// evaluate their path tables on representatives of every region those constants cut out
+		diff, nSamples := compareOnRegions(pa, pb)
+		rep.Check(diff == "", "C12.W4", pr[0]+" == "+pr[1], r.P.Pos(fa.Pos()), fmt.Sprintf("equal results on all %d region representatives", nSamples), "config helpers differ: "+diff)
 	}
-	// constructors: same structural verdicts (C15) and settings flow (C09.X4)
-	t15 := C15(r)
-	perTwin := [2]map[string]bool{{}, {}}
-	for _, o := range t15.Obs {
-		for tw := 0; tw < 2; tw++ {
-			ctor := r.M.CacheCtor[tw]
-			if ctor != nil && (strings.HasPrefix(o.Construct, fn(ctor)+" ") || strings.HasPrefix(o.Construct, fn(ctor)+"$")) {
-				key := o.Rule + strings.TrimPrefix(o.Construct, fn(ctor))
-				key = strings.ReplaceAll(key, "Of", "")
-				if _, seen := perTwin[tw][key]; !seen {
-					perTwin[tw][key] = true
-				}
-				if o.Status != core.Pass {
-					perTwin[tw][key] = false
-				}
-			}
-		}
-	}
+	// constructors: same structural verdicts (C15 rule families) on both twins
+	c15mu.Lock()
+	C15(r)
+	va, vb := c15TwinVerdicts[0], c15TwinVerdicts[1]
+	c15mu.Unlock()
+	perTwin := [2]map[string]bool{va, vb}
 	var diff []string
-	for k, v := range perTwin[0] {
-		if w, ok := perTwin[1][k]; !ok || w != v {
-			diff = append(diff, k)
+	for k, v := range va {
+		if w, ok := vb[k]; !ok || w != v {
+			diff = append(diff, fmt.Sprintf("%s (Cache: %v, CacheOf: %v)", k, v, vb[k]))
 		}
 	}
-	for k := range perTwin[1] {
-		if _, ok := perTwin[0][k]; !ok {
-			diff = append(diff, k)
+	for k := range vb {
+		if _, ok := va[k]; !ok {
+			diff = append(diff, k+" (only on CacheOf)")
 		}
 	}
 	sort.Strings(diff)
 	rep.Check(len(diff) == 0, "C12.W4", "constructor structure twins", "-", fmt.Sprintf("%d structural obligations with equal verdicts on both constructors", len(perTwin[0])), "the constructors' structural verdicts differ on: "+strings.Join(diff, "; "))
+}
+
+// ---- finite-ordering evaluation of comparison-only functions ----
+
+// leafVars collects the variable leaves (fields of the argument, len of the variadic) of the atoms of the paths
+// and, per variable, the constants it is compared with.
+func leafVars(paths []sym.Path, vars map[string]map[int64]bool) {
+	for _, p := range paths {
+		for _, a := range p.PC {
+			if a.T.Op != "cmp" || len(a.T.Args) != 2 {
+				continue
+			}
+			for i := 0; i < 2; i++ {
+				if k, ok := a.T.Args[1-i].IntVal(); ok {
+					if _, isC := a.T.Args[i].IntVal(); !isC {
+						key := normTerm(a.T.Args[i])
+						if vars[key] == nil {
+							vars[key] = map[int64]bool{}
+						}
+						vars[key][k] = true
+					}
+				}
+			}
+		}
+	}
+}
+
+func evalInt(t *sym.Term, env map[string]int64) (int64, bool) {
+	if k, ok := t.IntVal(); ok {
+		return k, true
+	}
+	if v, ok := env[normTerm(t)]; ok {
+		return v, true
+	}
+	return 0, false
+}
+
+func evalAtom(t *sym.Term, env map[string]int64) (bool, bool) {
+	if t.Op == "not" {
+		v, ok := evalAtom(t.Args[0], env)
+		return !v, ok
+	}
+	if t.Op != "cmp" || len(t.Args) != 2 {
+		return false, false
+	}
+	a, ok1 := evalInt(t.Args[0], env)
+	b, ok2 := evalInt(t.Args[1], env)
+	if !ok1 || !ok2 {
+		return false, false
+	}
+	switch t.K {
+	case ">":
+		return a > b, true
+	case ">=":
+		return a >= b, true
+	case "==":
+		return a == b, true
+	}
+	return false, false
+}
+
+// concretise renders a result term under an assignment: known integer leaves are replaced by their values.
+func concretise(t *sym.Term, env map[string]int64) string {
+	if v, ok := evalInt(t, env); ok {
+		return fmt.Sprint(v)
+	}
+	if t.IsZero() {
+		return "0"
+	}
+	if t.Op == "struct" {
+		var s []string
+		for i, a := range t.Args {
+			s = append(s, t.Names[i]+"="+concretise(a, env))
+		}
+		return "{" + strings.Join(s, ",") + "}"
+	}
+	var s []string
+	for _, a := range t.Args {
+		s = append(s, concretise(a, env))
+	}
+	k := t.K
+	if i := strings.Index(k, "#"); i >= 0 {
+		k = k[:i]
+	}
+	return t.Op + ":" + k + "(" + strings.Join(s, ",") + ")"
+}
+
+func resultUnder(paths []sym.Path, env map[string]int64) ([]*sym.Term, string) {
+	for i := range paths {
+		p := &paths[i]
+		okPath := true
+		for _, a := range p.PC {
+			v, known := evalAtom(a.T, env)
+			if !known {
+				return nil, "unevaluable atom " + a.T.String()
+			}
+			if v != a.V {
+				okPath = false
+				break
+			}
+		}
+		if okPath {
+			return p.Ret, ""
+		}
+	}
+	return nil, "no path"
+}
+
+// equalUnder compares two result terms under an assignment; an opaque struct value is compared field by field
+// with a struct literal on the other side.
+func equalUnder(a, b *sym.Term, env map[string]int64) bool {
+	if va, ok := evalInt(a, env); ok {
+		vb, ok2 := evalInt(b, env)
+		return ok2 && va == vb
+	}
+	if a.Op == "struct" && b.Op != "struct" {
+		for i, n := range a.Names {
+			if !equalUnder(a.Args[i], sym.Mk("field", n, b), env) {
+				return false
+			}
+		}
+		return true
+	}
+	if b.Op == "struct" && a.Op != "struct" {
+		return equalUnder(b, a, env)
+	}
+	if a.Op == "struct" && b.Op == "struct" {
+		if len(a.Args) != len(b.Args) {
+			return false
+		}
+		for i := range a.Args {
+			if !equalUnder(a.Args[i], b.Args[i], env) {
+				return false
+			}
+		}
+		return true
+	}
+	if a.IsZero() && b.IsZero() {
+		return true
+	}
+	return concretise(a, env) == concretise(b, env)
+}
+
+// compareOnRegions evaluates two path tables on one representative per region (k-1, k, k+1 for every constant k a
+// variable is compared with) and reports the first difference.
+func compareOnRegions(pa, pb []sym.Path) (string, int) {
+	vars := map[string]map[int64]bool{}
+	leafVars(pa, vars)
+	leafVars(pb, vars)
+	var names []string
+	for n := range vars {
+		names = append(names, n)
+	}
+	sort.Strings(names)
+	samples := make([][]int64, len(names))
+	for i, n := range names {
+		set := map[int64]bool{}
+		for k := range vars[n] {
+			set[k-1], set[k], set[k+1] = true, true, true
+		}
+		for v := range set {
+			if strings.HasPrefix(n, "len(") && v < 0 {
+				continue
+			}
+			samples[i] = append(samples[i], v)
+		}
+		sort.Slice(samples[i], func(a, b int) bool { return samples[i][a] < samples[i][b] })
+	}
+	total := 0
+	var rec func(i int, env map[string]int64) string
+	rec = func(i int, env map[string]int64) string {
+		if i == len(names) {
+			total++
+			ra, ea := resultUnder(pa, env)
+			rb, eb := resultUnder(pb, env)
+			if ea != "" || eb != "" {
+				if ea != eb {
+					return fmt.Sprintf("for %v: plain twin %s, generic twin %s", env, ea, eb)
+				}
+				return ""
+			}
+			same := len(ra) == len(rb)
+			for i := 0; same && i < len(ra); i++ {
+				same = equalUnder(ra[i], rb[i], env)
+			}
+			if !same {
+				var sa, sb []string
+				for _, t := range ra {
+					sa = append(sa, concretise(t, env))
+				}
+				for _, t := range rb {
+					sb = append(sb, concretise(t, env))
+				}
+				return fmt.Sprintf("for %v the plain twin yields %s, the generic twin %s", env, strings.Join(sa, ","), strings.Join(sb, ","))
+			}
+			return ""
+		}
+		for _, v := range samples[i] {
+			env[names[i]] = v
+			if d := rec(i+1, env); d != "" {
+				return d
+			}
+		}
+		return ""
+	}
+	if total > 200000 {
+		return "too many regions", total
+	}
+	return rec(0, map[string]int64{}), total
 }
